@@ -187,6 +187,27 @@ def seeds_for(prop):
     return out
 
 
+def refactorings_for(prop):
+    """(directory name, patch text, reason or None) of the stored refactorings; reason: why `prop` reports it"""
+    import json
+    base = os.path.join(os.path.dirname(os.path.dirname(os.path.abspath(__file__))), "refactorings")
+    out = []
+    if not os.path.isdir(base):
+        return out
+    expected = {}
+    ep = os.path.join(base, "expected.json")
+    if os.path.exists(ep):
+        with open(ep) as f:
+            expected = json.load(f)
+    for d in sorted(os.listdir(base)):
+        pp = os.path.join(base, d, "patch.diff")
+        if not os.path.exists(pp):
+            continue
+        with open(pp) as f:
+            out.append((d, f.read(), expected.get(d, {}).get(prop)))
+    return out
+
+
 def catalogue():
     from . import variants
     return variants.VARIANTS
@@ -222,6 +243,25 @@ def run(prop, seed=0, verbose=True, only=None):
             v = Variant("%s-global-%s" % (prop.lower(), tname), prop, "*", "*", "", "", benign=True,
                         why="whole package: " + tname)
             todo.append((v, (v.vid, prop, benign.overrides(prog, tname), prog.root)))
+        # behaviour-preserving refactorings written by independent authors (refactorings/<id>/patch.diff): the check
+        # must stay silent, except for the (refactoring, property) pairs listed in refactorings/expected.json with
+        # the reason (the refactoring is not behaviour-preserving for that property, or a documented limitation)
+        for d, patch, exp in refactorings_for(prop):
+            ov = apply_unified_diff(srcs, patch)
+            if ov is None:
+                na.append("refactoring:" + d)
+                continue
+            if exp is None:
+                v = Variant("refactoring:" + d, prop, "*", "*", "", "", benign=True,
+                            why="behaviour-preserving refactoring " + d)
+            elif exp.get("kind") == "true-positive":
+                v = Variant("refactoring:" + d, prop, "*", "*", "", "", rule=None,
+                            why="refactoring %s breaks the property: %s" % (d, exp.get("reason")))
+                v.expect = "violation"
+            else:
+                na.append("refactoring:%s (known limitation: %s)" % (d, exp.get("reason")))
+                continue
+            todo.append((v, (v.vid, prop, ov, prog.root)))
     results = {}
     if todo:
         workers = min(16, len(todo))
